@@ -188,7 +188,7 @@ def gen_cfg(rng):
         initialInc=rng.choice([0.3, 0.5, 1.0, 0.2, 0.1, 0.37, 0.25]),
         minInc=rng.choice([1e-3, 1e-2, 0.05, 2e-3]),
         maxInc=rng.choice([1.0, 0.5, 0.3, 0.2, 0.05]),
-        absTOL=rng.choice([1e-3, 1e-2, 0.5]),
+        absTOL=rng.choice([1e-3, 1e-2, 0.5, 1e-5, 1e-4, 1e-6]),       # also well below every other tolerance attribute of the run object
         too_slow_TOL=rng.choice([0.01, 0.05]),
         maxNumIter=rng.choice([3, 4, 6, 10, 30]),
         line_search=rng.random() < 0.4,
